@@ -231,11 +231,15 @@ class Interp:
             if i == 0 and fi.cls is not None and not fi.is_static and fi.parent is None:
                 out[a.arg] = Obj(fi.cls.name)
                 continue
+            if fi.rewrapped:
+                # a repository decorator may have validated / converted / canonicalised the argument before the body runs
+                out[a.arg] = TOP
+                continue
             dk = self.declared_param(fi, a.arg)
             out[a.arg] = dk if dk is not None else self.annotation_kind(fi, a)
         for a in fi.node.args.kwonlyargs:
             dk = self.declared_param(fi, a.arg)
-            out[a.arg] = dk if dk is not None else self.annotation_kind(fi, a)
+            out[a.arg] = TOP if fi.rewrapped else (dk if dk is not None else self.annotation_kind(fi, a))
         if fi.node.args.vararg:
             out[fi.node.args.vararg.arg] = TOP
         if fi.node.args.kwarg:
@@ -1113,6 +1117,10 @@ class Interp:
             for name in pos + kwonly:
                 if name not in bound and name not in defaults:
                     problem = problem or f"missing required argument '{name}' of {fi.short}{_sig(fi)}"
+        if problem and fi.rewrapped:
+            # the callee is wrapped by a repository decorator: the wrapper, not this signature, receives the call
+            self.site(fr, "C-SIG", node, fi.short, UNKNOWN)
+            return None
         if problem:
             self.site(fr, "C-SIG", node, fi.short, Mismatch(problem))
             return None
@@ -1154,7 +1162,7 @@ class Interp:
                 dk = self.declared_param(fi, name)
                 if name in bound:
                     ak = bound[name]
-                    if dk is not None and not isinstance(dk, _Top):
+                    if dk is not None and not isinstance(dk, _Top) and not fi.rewrapped:
                         v = fits(ak, dk)
                         if only_none(deconst(ak)) and name in defaults:
                             v = OK
@@ -1171,7 +1179,7 @@ class Interp:
             # actual argument: the helper is then analysed for this call context
             actual = []
             for name, ak in bound.items():
-                if name in b and isinstance(b[name], _Top) and is_known(ak):
+                if name in b and isinstance(b[name], _Top) and is_known(ak) and not fi.rewrapped:
                     b[name] = ak
                     actual.append(name)
             if actual:
@@ -1182,7 +1190,9 @@ class Interp:
         # context-sensitive
         b = {}
         for p in list(fi.params) + list(fi.node.args.kwonlyargs):
-            if p.arg in bound:
+            if p.arg in bound and fi.rewrapped and not (fi.cls is not None and p is fi.params[0] and not fi.is_static):
+                b[p.arg] = TOP  # a repository decorator stands between the call and the body
+            elif p.arg in bound:
                 ak = bound[p.arg]
                 if isinstance(ak, _Top):
                     ak2 = self.annotation_kind(fi, p)
